@@ -2,7 +2,10 @@ package props
 
 import (
 	"fmt"
+	"math"
 	"strings"
+
+	"verif/mc/refsem"
 
 	"verif/mc/drive"
 )
@@ -30,7 +33,11 @@ func scaleFamiliesBuild() []*scaleFam {
 		{"a recursion d deep with e pending operators around the recursive call", "C20"}, {"a width and an argument of given lengths; two widths in a row", "C20"},
 		{"a call of n arguments whose k-th argument is itself a call", "C16"}, {"a for-in statement that walks a growing object of n keys twice", "C07"},
 		{"one name read through call paths that bind it at different distances", "C09"},
-		{"cases whose alternatives bind different names, subjects in every order", "C11"}} {
+		{"cases whose alternatives bind different names, subjects in every order", "C11"},
+		{"a literal as match subject, bound by name, assigned in the body, then the literal again", "C13"}, {"a literal as match subject, bound by name, assigned in the body, then the literal again", "C19"},
+		{"root selectors with a variable of their own, value after value", "C10"}, {"faults inside a root selector are positioned in the selector", "C11"}, {"faults inside a root selector are positioned in the selector", "C20"},
+		{"n control-flow signals that leave a match arm, a call or a loop through an expression", "C08"}, {"n control-flow signals that leave a match arm, a call or a loop through an expression", "C02"},
+		{"a match case with an expression body that is left by next", "C08"}, {"a failing operator in every kind of rule", "C05"}} {
 		for _, f := range all {
 			if f.Name == also[0] {
 				g := *f
@@ -261,6 +268,33 @@ func scaleSchemas() []*scaleFam {
 			prog := fmt.Sprintf("BEGIN { i = 0; e = 0; m = 0; while (true) { i++; if (i > %d) { break } if (i %% 2 == 1) { continue } for (j = 0; j < 3; j++) { if (j == 1) { continue } if (j == 2) { break } e++ } } print i, e; for (k = %d; k > 0; k--) { if (k %% 3 == 0) continue; m++ } print k, m }\n", n, n)
 			return scaleCase{Prog: prog, Want: fmt.Sprintf("%d %d\n0 %d\n", n+1, n/2, n-n/3)}
 		}},
+		{Prop: "C07", Name: "n control-flow signals that leave a match arm, a call or a loop through an expression", Max: 400000, QMax: 400000, Build: func(n int) scaleCase {
+			prog := fmt.Sprintf("function skip(v) { if (v %% 2 == 0) { next } return v }\nfunction pick(v) { for (x in [v]) { return match (x) { 0 => 0, k => { return k + 1 } } } }\nBEGIN { odd = 0; t = 0; for (i = 0; i < %d; i++) { match (i %% 2) { 0 => { continue }, 1 => { if (i > %d) { break } } } odd++ } print odd; for (i = 0; i < %d; i++) { t += pick(1) } print t }\n{ cnt += ! ! ! ! skip($index) > 0 }\nEND { print cnt; print match ([1, 2]) { [1, 3] => \"a\", [2, y] => \"b\", [z, 2] => \"c\" } }\n", n, n, n)
+			recs := 2000
+			return scaleCase{Prog: prog, Files: []inFile{{Name: "in.json", Text: "[" + strings.TrimSuffix(strings.Repeat("0,", recs), ",") + "]"}}, Want: fmt.Sprintf("%d\n%d\n%d\nc\n", n/2, 2*n, recs/2), NoModel: n > 20000}
+		}},
+		{Prop: "C19", Name: "n records through array patterns that fail at an element before one matches", Max: 400000, QMax: 400000, Build: func(n int) scaleCase {
+			var sb strings.Builder
+			sb.WriteString("[")
+			for k := 1; k <= n; k++ {
+				if k > 1 {
+					sb.WriteString(",")
+				}
+				sb.WriteString([]string{`["add",2]`, `["sub",1]`, `["other",5]`}[k%3])
+			}
+			sb.WriteString("]")
+			add, sub := (n+2)/3, (n+1)/3 // k%3==1 -> sub? computed below
+			add, sub = 0, 0
+			for k := 1; k <= n; k++ {
+				switch k % 3 {
+				case 0:
+					add++
+				case 1:
+					sub++
+				}
+			}
+			return scaleCase{Prog: "{ total += match ($) { [\"add\", v] => v, [\"sub\", v] => 0 - v, [w, v] => 0 } }\nEND { print total, (1 + (2 + (3 + 4))) }\n", Files: []inFile{{Name: "in.json", Text: sb.String()}}, Want: fmt.Sprintf("%d 10\n", 2*add-sub), NoModel: n > 20000}
+		}},
 		// ---------------------------------------------------------------- C19: match
 		{Prop: "C19", Name: "a match of n literal cases", Max: 3000, QMax: 600, Build: func(n int) scaleCase {
 			cases := seqs2(n, ", ", func(k int) string { return fmt.Sprintf("%d => \"c%d\"", k, k) })
@@ -288,6 +322,23 @@ func scaleSchemas() []*scaleFam {
 		{Prop: "C17", Name: "arrays nested n deep printed whole", Max: 2000, QMax: 400, Build: func(n int) scaleCase {
 			prog := "BEGIN { a = 1; for (i = 0; i < " + itoa(n) + "; i++) { a = [a, \"s\"] } print a; o = 2; for (i = 0; i < " + itoa(n) + "; i++) { o = {k: o} } print o }\n"
 			return scaleCase{Prog: prog, Want: strings.Repeat("[", n) + "1" + strings.Repeat(", \"s\"]", n) + "\n" + strings.Repeat("{\"k\": ", n) + "2" + strings.Repeat("}", n) + "\n"}
+		}},
+		{Prop: "C17", Name: "a value shared by two siblings below n levels of nesting", Max: 2000, QMax: 400, Build: func(n int) scaleCase {
+			prog := fmt.Sprintf("BEGIN { e = [1]; o = {k: 2}; v = [e, e, o, o]; w = {a: e, b: e}; for (i = 0; i < %d; i++) { v = [v]; w = {n: w} } print v; print w }\n", n)
+			return scaleCase{Prog: prog, Want: strings.Repeat("[", n) + "[[1], [1], {\"k\": 2}, {\"k\": 2}]" + strings.Repeat("]", n) + "\n" + strings.Repeat("{\"n\": ", n) + "{\"a\": [1], \"b\": [1]}" + strings.Repeat("}", n) + "\n"}
+		}},
+		{Prop: "C17", Name: "numbers that are exact in single precision, printed", Max: 120, QMax: 120, Dense: 120, Build: func(n int) scaleCase {
+			var vals []float64
+			for _, base := range []float64{0.1, 0.3, 1.1, 2.7, 1e-5, 123.456, 1.0 / 3, 16777217.5} {
+				vals = append(vals, float64(float32(base*float64(n))), float64(float32(base/float64(n))))
+			}
+			vals = append(vals, math.Ldexp(1, -n), math.Ldexp(3, -n), -math.Ldexp(5, -n-3))
+			var in, want []string
+			for _, f := range vals {
+				in = append(in, refsem.FormatNum(f))
+				want = append(want, refsem.FormatNum(f)+" ["+refsem.FormatNum(f)+"] "+refsem.FormatNum(f*2))
+			}
+			return scaleCase{Prog: "{ print $, [$], $ * 2 }\n", Files: []inFile{{Name: "in.json", Text: "[" + strings.Join(in, ", ") + "]"}}, Want: strings.Join(want, "\n") + "\n"}
 		}},
 		{Prop: "C17", Name: "a doubly linked chain of n nodes printed from its head", Max: 1000, QMax: 200, Build: func(n int) scaleCase {
 			prog := fmt.Sprintf("BEGIN { head = [0, null, null]; cur = head; for (i = 1; i < %d; i++) { nx = [i, null, cur]; cur[1] = nx; cur = nx } print head; print \"done\" }\n", n)
@@ -336,6 +387,12 @@ func scaleSchemas() []*scaleFam {
 			return scaleCase{Prog: prog, Want: s + "|" + s + "|   " + s + "|" + s + "  |" + s + "|\n"}
 		}},
 		// ---------------------------------------------------------------- C16: string methods
+		{Prop: "C16", Name: "upper and lower of n ASCII bytes followed by, preceded by and around a letter that is not ASCII", Max: 5000, QMax: 1100, Build: func(n int) scaleCase {
+			a := strings.Repeat("ab", n/2+1)[:n]
+			A := strings.ToUpper(a)
+			prog := fmt.Sprintf("BEGIN { print \"%sé\".upper(), \"É%s\".lower(), \"%sñ%s\".upper(), \"%sÉÑ\".lower(), \"%sß\".upper().length() }\n", a, A, a, a, A, a)
+			return scaleCase{Prog: prog, Want: fmt.Sprintf("%sÉ é%s %sÑ%s %séñ %d\n", A, a, A, A, a, len(strings.ToUpper(a+"ß")))}
+		}},
 		{Prop: "C16", Name: "split, join, upper, lower and length on n fields", Max: 70000, QMax: 5000, Build: func(n int) scaleCase {
 			prog := fmt.Sprintf("BEGIN { for (i = 1; i <= %d; i++) { if (i > 1) { s = s + \",\" } s = s + \"ab\" } p = s.split(\",\"); for (f in p) { if (f != \"ab\") { bad++ } } print p.length(), p[0], p[-1], bad is unknown, s.upper().lower() == s, s.upper().length(), s.length(), s.split(\"b,a\").length(), s.split(\"\").length(), s.upper().split(\"B\").length() }\n", n)
 			return scaleCase{Prog: prog, Want: fmt.Sprintf("%d ab ab true true %d %d %d %d %d\n", n, 3*n-1, 3*n-1, n, 3*n-1, n+1)}
@@ -367,6 +424,10 @@ func scaleSchemas() []*scaleFam {
 				src = "BEGIN {" + src
 			}
 			return scaleCase{Prog: prog, Want: "", Kind: drive.KRuntime, Line: n, SrcLine: src}
+		}},
+		{Prop: "C12", Name: "a runtime fault at column n of one long line, through the binary as well", Max: 60000, QMax: 5000, Build: func(n int) scaleCase {
+			line := "BEGIN { x = \"" + strings.Repeat("a", imax(n-14, 1)) + "\"; y = 1 % 0 }"
+			return scaleCase{Prog: "# first line\n" + line + "\nEND { print 1 }\n", Want: "", Kind: drive.KRuntime, Line: 2, SrcLine: line, CLI: true}
 		}},
 		{Prop: "C12", Name: "a syntax error on line n behind n - 1 statement lines", Max: 70000, QMax: 5000, Build: func(n int) scaleCase {
 			prog := "BEGIN {\n" + strings.Repeat("x = 1 # c\n", n-1) + "  y = 1 + )\n}\n"
